@@ -59,6 +59,11 @@ class C02(C01):
             ops.append(("finish",))
             progs.append(dict(ops=ops, base=(base0 if a % 5 == 0 else None)))
             metas.append(dict(k="valid"))
+        # more entries than the 16-bit counts of the end record can hold: the counts must be the 0xFFFF marker (or the true
+        # value), with ZIP64 end record and locator (implementation only: the list-based model is quadratic here)
+        for cnt in ((65541,) if self.tier == "quick" else (65535, 65536, 65541, 70000)):
+            progs.append(dict(ops=[("file", b"e%d" % i, Opts()) for i in range(cnt)] + [("comment", b"many"), ("finish",)]))
+            metas.append(dict(k="valid", impl_only=True))
         # lengths the format cannot represent
         for L in (65535, 65536, 65537, 70000):
             progs.append(dict(ops=[("file", b"n" * L, Opts()), ("write", b"x"), ("finish",)])); metas.append(dict(k="len", what="name", L=L))
